@@ -41,7 +41,7 @@ var CfgC02 = reg(&MachineCfg{
 			opt.AolGenesis = g.genAolGenesis(app.MakeEncodingConfig().Codec, true)
 		}
 	},
-	Gens: []interface{}{"aol", 64, "commit", 12, "authz", 12, "crash", 2, "restart", 2, "bank", 2, "pnft", 2, "sim_aol", 6},
+	Gens: []interface{}{"aol", 62, "commit", 12, "authz", 12, "crash", 2, "restart", 2, "export", 3, "bank", 2, "pnft", 2, "sim_aol", 6},
 	Bias: map[string]int{"right-signers": 55, "exec": 22, "fee-payer": 40, "multi": 18, "tamper": 10, "group": 15},
 	Rule: "same machine with independently chosen signer sets (right, other account, swapped, dropped, garbage signature, wrong sequence, extra), sign modes direct/amino-json/direct-aux, named fee payers and authz grant/revoke/exec; oracle = transition validity on the aol store diff of every DeliverTx; non-trivial = at least one refused AOL attempt and at least one accepted writer-list change or append",
 	NonTrivial: func(w *world.World) bool {
@@ -86,6 +86,12 @@ var didGens = []interface{}{"did", 70, "commit", 14, "crash", 3, "restart", 2, "
 
 var CfgC03 = reg(&MachineCfg{
 	Prop: "C03", Gens: didGens,
+	Setup: func(g *G, opt *world.Options) {
+		// a registry that already holds entries, some with sequences next to the counter's limits
+		if g.chance("did-genesis-mode", 22) {
+			opt.DidGenesis = g.genDidGenesis(app.MakeEncodingConfig().Codec, world.DIDKeys(), true)
+		}
+	},
 	Bias: map[string]int{"right-signers": 92, "exec": 3, "right-proof": 55, "did-replay": 6},
 	Rule: "DID state machine: create/update/deactivate with independently chosen (signing key, signed content, signed sequence, quoted method id), key rotations, keys listed only as verification methods or under other relationships, ed25519 keys, unknown type labels, any relayer; oracle = harness proof ledger + did-store diff after every DeliverTx; non-trivial = an accepted key rotation followed by a refused attempt, or an attempt with a key outside authentication",
 	NonTrivial: func(w *world.World) bool {
@@ -95,6 +101,12 @@ var CfgC03 = reg(&MachineCfg{
 
 var CfgC04 = reg(&MachineCfg{
 	Prop: "C04", Gens: didGens,
+	Setup: func(g *G, opt *world.Options) {
+		// a registry that already holds entries, some with sequences next to the counter's limits
+		if g.chance("did-genesis-mode", 22) {
+			opt.DidGenesis = g.genDidGenesis(app.MakeEncodingConfig().Codec, world.DIDKeys(), true)
+		}
+	},
 	Bias: map[string]int{"right-signers": 94, "exec": 2, "right-proof": 72, "did-replay": 22, "did-create": 22},
 	Rule: "DID machine plus a replay action that re-submits any earlier accepted message (same inner fields, possibly another relayer/sign mode/block); oracle = sequence model (0 on create, +1 per accepted update/deactivate, unchanged otherwise) on store and read operation, and refusal of every replay; non-trivial = >=2 accepted updates and >=1 refused replay",
 	NonTrivial: func(w *world.World) bool {
